@@ -669,6 +669,12 @@ def _explore(ctx, budget_scale=1, only=None):
         if ko.get("not_killed"):
             res.count("kill-after-the-last-call")
             continue
+        for c0 in ko["cases"][:1]:
+            for o in c0["killed_ops"]:
+                t = o.split(" ")
+                if t[0] in ("creat", "write") and t[1].rsplit("/", 1)[-1] in ("output.pkl", "metadata.json"):
+                    res.fail("final-name-written-in-place:" + t[1].rsplit("/", 1)[-1], dict(workload=wname, when=ko["when"]), o)
+                    break
         for fn, why in ko.get("final_names", []):
             res.fail(f"final-name-incomplete:{fn}", dict(workload=wname, when=ko["when"]), why)
         for c in ko["cases"]:
